@@ -212,6 +212,10 @@ inductive Family where
   /-- recursion through a function called with `a` actual arguments that declares `p` more parameters
       (padded with nil), in a program that declares `k` extra globals -/
   | recurPad (a p k : Nat)
+  /-- two phases in one run: BEGIN dives `d` calls deep and leaves by `exit`; END then recurses n deep -/
+  | exitRec (d : Nat)
+  /-- the same first phase; END then nests n blocks -/
+  | exitBlk (d : Nat)
 deriving Repr, DecidableEq
 
 /-- number of value-stack slots in use when the BEGIN block of the generated programs runs:
@@ -255,6 +259,8 @@ def parseReqs : Family → Nat → List Req
   | .block, n => ramp blockParse 0 (n + 1) ++ [⟨exprParse, 1⟩, ⟨exprParse, 2⟩]
   | .recur, _ | .recurPad _ _ _, _ => [⟨blockParse, 1⟩, ⟨exprParse, 1⟩, ⟨exprParse, 2⟩, ⟨exprParse, 3⟩]
   | .chainFree, _ => [⟨blockParse, 1⟩, ⟨exprParse, 1⟩, ⟨exprParse, 2⟩]
+  | .exitRec _, _ => [⟨blockParse, 1⟩, ⟨exprParse, 1⟩, ⟨exprParse, 2⟩, ⟨exprParse, 3⟩]
+  | .exitBlk _, n => [⟨blockParse, 1⟩, ⟨exprParse, 1⟩, ⟨exprParse, 2⟩, ⟨exprParse, 3⟩] ++ ramp blockParse 0 (n + 1)
   | .mapNest, _ => [⟨blockParse, 1⟩, ⟨exprParse, 1⟩, ⟨exprParse, 2⟩, ⟨blockParse, 2⟩, ⟨exprParse, 3⟩]
   | .incl, n => ramp incl 0 n ++ [⟨blockParse, 1⟩, ⟨exprParse, 1⟩, ⟨exprParse, 2⟩]
   | .seq, _ => ⟨blockParse, 1⟩ :: ⟨blockParse, 2⟩ :: ramp exprParse 0 5
@@ -271,6 +277,12 @@ def runReqs : Family → Nat → List Req
   | .recur, n => [⟨blockRun, 1⟩, ⟨exprRun, 1⟩, ⟨exprRun, 2⟩, ⟨exprRun, 3⟩] ++ recurFrom n 0
   | .recurPad a p k, n => [⟨blockRun, 1⟩, ⟨exprRun, 1⟩, ⟨exprRun, 2⟩, ⟨exprRun, 3⟩] ++ padFrom (4 + a + p) (stackBase + k) n 0
   | .chainFree, _ => [⟨blockRun, 1⟩, ⟨exprRun, 1⟩, ⟨exprRun, 2⟩]
+  -- every counter is back at its entry value when the first phase has been left by `exit` (see
+  -- `counters_balanced`): the requests of the second phase do not depend on d
+  | .exitRec d, n => [⟨blockRun, 1⟩, ⟨exprRun, 1⟩, ⟨exprRun, 2⟩, ⟨exprRun, 3⟩] ++ recurFrom d 0 ++
+      [⟨blockRun, 1⟩, ⟨exprRun, 1⟩, ⟨exprRun, 2⟩, ⟨exprRun, 3⟩] ++ recurFrom n 0
+  | .exitBlk d, n => [⟨blockRun, 1⟩, ⟨exprRun, 1⟩, ⟨exprRun, 2⟩, ⟨exprRun, 3⟩] ++ recurFrom d 0 ++
+      ramp blockRun 0 (n + 1) ++ [⟨exprRun, 1⟩, ⟨exprRun, 2⟩]
   | .mapNest, _ => [⟨blockRun, 1⟩, ⟨exprRun, 1⟩, ⟨exprRun, 2⟩, ⟨blockRun, 2⟩, ⟨exprRun, 3⟩]
   | .regex, _ => [⟨blockRun, 1⟩, ⟨exprRun, 1⟩, ⟨exprRun, 2⟩, ⟨exprRun, 3⟩]
   | .incl, _ => [⟨blockRun, 1⟩, ⟨exprRun, 1⟩, ⟨exprRun, 2⟩, ⟨stack, stackBase + 4⟩, ⟨blockRun, 2⟩, ⟨exprRun, 3⟩]
@@ -281,11 +293,11 @@ def requests (f : Family) (n : Nat) : List Req := parseReqs f n ++ runReqs f n
 
 /-- what the program prints when nothing stops it (none = not specified by this model) -/
 def output : Family → Nat → Option String
-  | .paren, _ | .assign, _ | .block, _ | .ifChain, _ | .elseIf, _ | .whileChain, _ | .index, _ | .call, _ | .regex, _ | .seq, _ | .chainFree, _ => some "1"
+  | .paren, _ | .assign, _ | .block, _ | .ifChain, _ | .elseIf, _ | .whileChain, _ | .index, _ | .call, _ | .regex, _ | .seq, _ | .chainFree, _ | .exitBlk _, _ => some "1"
   | .unary, n => some (if n % 2 = 0 then "1" else "-1")
   | .lnot, n => some (if n % 2 = 0 then "1" else "0")
   | .leftBin, n | .concat, n => some (toString (n + 1))
-  | .recur, n | .incl, n | .recurPad _ _ _, n => some (toString n)
+  | .recur, n | .incl, n | .recurPad _ _ _, n | .exitRec _, n => some (toString n)
   | .ternary, _ => some "2"
   | .mapNest, _ => some "map"
   | .dollar, _ => some "[]"
@@ -308,15 +320,18 @@ def peakOf : Family → Kind → Nat → Nat
   | _, .incl, _ => 0
   | .block, .blockParse, n => n + 1
   | .mapNest, .blockParse, _ | .seq, .blockParse, _ => 2
+  | .exitBlk _, .blockParse, n => n + 1
   | _, .blockParse, _ => 1
   | .paren, .exprParse, n | .unary, .exprParse, n | .lnot, .exprParse, n | .ternary, .exprParse, n | .index, .exprParse, n
   | .call, .exprParse, n | .dollar, .exprParse, n | .getline, .exprParse, n | .pipe, .exprParse, n => n + 2
   | .assign, .exprParse, n => n + 1
   | .seq, .exprParse, _ => 5
-  | .recur, .exprParse, _ | .mapNest, .exprParse, _ | .recurPad _ _ _, .exprParse, _ => 3
+  | .recur, .exprParse, _ | .mapNest, .exprParse, _ | .recurPad _ _ _, .exprParse, _ | .exitRec _, .exprParse, _ | .exitBlk _, .exprParse, _ => 3
   | _, .exprParse, _ => 2
   | .block, .blockRun, n => n + 1
   | .recur, .blockRun, n | .recurPad _ _ _, .blockRun, n => n + 2
+  | .exitRec d, .blockRun, n => max (d + 2) (n + 2)
+  | .exitBlk d, .blockRun, n => max (d + 2) (n + 1)
   | .seq, .blockRun, _ => 3
   | .call, .blockRun, _ | .mapNest, .blockRun, _ | .incl, .blockRun, _ => 2
   | _, .blockRun, _ => 1
@@ -324,12 +339,16 @@ def peakOf : Family → Kind → Nat → Nat
   | .index, .exprRun, n | .call, .exprRun, n | .dollar, .exprRun, n | .getline, .exprRun, n | .pipe, .exprRun, n => n + 2
   | .assign, .exprRun, n => n + 1
   | .recur, .exprRun, n | .recurPad _ _ _, .exprRun, n => 2 * n + 4
+  | .exitRec d, .exprRun, n => max (2 * d + 4) (2 * n + 4)
+  | .exitBlk d, .exprRun, _ => 2 * d + 4
   | .seq, .exprRun, _ => 4
   | .mapNest, .exprRun, _ | .regex, .exprRun, _ | .incl, .exprRun, _ => 3
   | _, .exprRun, _ => 2
   | .call, .stack, n => if n = 0 then 0 else stackBase + 4 * n + 1
   | .recur, .stack, n => stackBase + 5 * n + 5
   | .recurPad a p k, .stack, n => stackBase + k + (4 + a + p) * n + (4 + a + p)
+  | .exitRec d, .stack, n => max (stackBase + 5 * d + 5) (stackBase + 5 * n + 5)
+  | .exitBlk d, .stack, _ => stackBase + 5 * d + 5
   | .incl, .stack, _ => stackBase + 4
   | .seq, .stack, _ => stackBase + 5
   | _, .stack, _ => 0
